@@ -52,7 +52,8 @@ CONSTANTS Content,      \* key id -> [rn |-> resname, g |-> residue graph, u |->
           DevRecentre,       \* deviation: user coordinates re-centred around another point (the first atom)
           DevKeySites,       \* deviation: the annotation site refines the key of a large residue, the parser site does not
           DevProcForgets,    \* deviation: GenerateTemplates remembers only the table of the molecule at hand
-          LargeN             \* number of atoms from which on a residue is "large" (matters with DevKeySites only)
+          LargeN,            \* number of atoms from which on a residue is "large" (matters with DevKeySites only)
+          DevSkipVSWhenNothingToOptimise   \* deviation: the virtual sites are only constructed as part of a minimisation that has targets
 
 VARIABLES sys, bld, nobld, pc, vols, tmpl, r2h, tag, ngen, held, vver
 vars == <<sys, bld, nobld, pc, vols, tmpl, r2h, tag, ngen, held, vver>>
@@ -72,7 +73,18 @@ Slots == KeySpace \cup Resnames
 NoVal == [src |-> "none", v |-> 0]
 UserVal(v) == [src |-> "user", v |-> v]
 Computed == [src |-> "computed", v |-> 0]
-NoTmpl == [src |-> "none", how |-> "-"]
+NoTmpl == [src |-> "none", how |-> "-", vs |-> "-"]
+\* ---- producing ONE template: start coordinates, Minimise (has work only if the residue has a bond, constraint, angle or improper of
+\* its own: Content[k].bonded), ConstructVS (put every virtual site on its construction from the defining atoms).  ConstructVS is a
+\* step of its own: it is enabled whether or not the minimisation had anything to do (a residue held together by [ settles ] or by
+\* nothing but its virtual-site definitions still has its sites constructed).  vs: "none" no sites, "constructed", "initial" (sites
+\* left on the start coordinates), "user" (template supplied by the user).
+HasVS(h) == Content[Base(h)].hasvs
+MinimiserHasWork(h) == Content[Base(h)].bonded
+VSAfterMinimise(h) == IF ~HasVS(h) THEN "none" ELSE IF MinimiserHasWork(h) THEN "constructed" ELSE "initial"   \* (sites are renewed inside the minimisation)
+ConstructVSEnabled(h) == ~(DevSkipVSWhenNothingToOptimise /\ ~MinimiserHasWork(h))
+VSFinal(h) == IF HasVS(h) /\ ConstructVSEnabled(h) THEN "constructed" ELSE VSAfterMinimise(h)
+GenTmpl(h) == [src |-> "generated", how |-> "cog", vs |-> VSFinal(h)]
 NodesOf(s) == UNION { { <<m, i>> : i \in 1..Len(s[m]) } : m \in 1..Len(s) }
 KeyAt(s, nd) == s[nd[1]][nd[2]]
 
@@ -101,7 +113,7 @@ ParseVolume == /\ pc.phase = "parse" /\ bld[pc.i].e = "V"
 ParseTemplate == /\ pc.phase = "parse" /\ bld[pc.i].e = "T"
                  /\ LET k == ParseKey(bld[pc.i].k) rn == RnOf(k) IN
                       /\ vols' = IF vols[k].src = "none" THEN [vols EXCEPT ![k] = Computed] ELSE vols
-                      /\ tmpl' = [tmpl EXCEPT ![k] = [src |-> "user", how |-> IF DevRecentre THEN "first" ELSE "cog"]]
+                      /\ tmpl' = [tmpl EXCEPT ![k] = [src |-> "user", how |-> IF DevRecentre THEN "first" ELSE "cog", vs |-> "user"]]
                       /\ r2h' = [r2h EXCEPT ![rn] = IF DevVolLost THEN {k} ELSE @ \cup {k}]
                  /\ pc' = AfterParse(pc.i)
                  /\ UNCHANGED <<sys, bld, nobld, tag, ngen, held, vver>>
@@ -125,7 +137,7 @@ Gen == /\ pc.phase = "gen"
               private == DevProcForgets /\ nobld
               new == { k \in ks : private \/ tmpl[k].src = "none" \/ DevUserRegen }
               ng == [h \in KeySpace |-> IF h \in new THEN ngen[h] + 1 ELSE ngen[h]]
-              tm == [k \in KeySpace |-> IF k \in new THEN [src |-> "generated", how |-> "cog"] ELSE tmpl[k]]
+              tm == [k \in KeySpace |-> IF k \in new THEN GenTmpl(k) ELSE tmpl[k]]
               view == [h \in KeySpace |-> VerIn(tm, ng, h)]
           IN /\ tag' = [nd \in DOMAIN tag |-> IF nd[1] = m THEN TagKey(KeyAt(sys, nd)) ELSE tag[nd]]
              /\ tmpl' = tm
@@ -162,6 +174,8 @@ UserTemplateWins == Done => \A nd \in NodesOf(sys) : tmpl[tag[nd]].src = (IF Has
 \* a size given in the build file for the residue name is the size of every residue of that name, otherwise a computed size
 UserVolumeWins == Done => \A nd \in NodesOf(sys) :
                      LET rn == Content[KeyAt(sys, nd)].rn IN vols[tag[nd]] = (IF HasV(rn) THEN UserVal(VOf(rn)) ELSE Computed)
+\* the virtual sites of a generated template sit on their constructions, whatever else the residue consists of
+VSConstructed == \A h \in KeySpace : tmpl[h].src = "generated" => tmpl[h].vs = (IF HasVS(h) THEN "constructed" ELSE "none")
 \* ---- one template and size per key in the whole system
 \* a template for a key is generated at most once per system
 GeneratedOnce == \A h \in KeySpace : ngen[h] <= 1
